@@ -151,6 +151,18 @@ def setup(ctx):
         spy(mod, name)
 
 
+def _huge_alphabet(rnd):
+    """A handful of small markers plus one group of 1 000-1 300 values (a single operation over it touches more
+    than a thousand atoms): whatever such an operation leaves behind must not show in the small operations."""
+    var = rnd.choice(["sys_platform", "platform_machine"])
+    n = rnd.choice([1030, 1100, 1300])
+    big = " or ".join(f'{var} == "plat{i}"' for i in range(n))
+    small = ['os_name != "a"', 'os_name == "b" and python_version >= "3.9" and python_version < "3.11"', 'os_name == "b"',
+             'python_version >= "3.9"', f'{var} == "plat1"', f'{var} != "plat2"', 'os_name == "a" or python_version < "3.9"']
+    rnd.shuffle(small)
+    return [big] + small[:rnd.randint(3, 5)]
+
+
 def _alphabet(rnd):
     k = rnd.random()
     atoms = []
@@ -308,7 +320,7 @@ def _run_history(ctx, atoms, ops, fresh_budget):
     for pos, (op, s) in enumerate(zip(ops, warm)):
         compare("history-position", op, s, pos, "original", warm_objs[pos])
         ctx.nontrivial(json.dumps(op))
-    K = 3 if ctx.tier == "quick" else 8
+    K = getattr(ctx, "c10_perms", None) or (3 if ctx.tier == "quick" else 8)
     for k in range(K):
         perm = list(range(len(ops)))
         rnd.shuffle(perm)
@@ -372,11 +384,42 @@ def run(ctx):
     n_hist = 9 if ctx.tier == "quick" else 60
     fresh = 6 if ctx.tier == "quick" else 8
     for h in range(n_hist):
-        atoms = _alphabet(rnd)
-        ops = _history(rnd, atoms, rnd.randint(40, 120))
+        huge = (h == 1 and ctx.shard % 2 == 0) if ctx.tier == "quick" else (h % 10 == 1)
+        atoms = _huge_alphabet(rnd) if huge else _alphabet(rnd)
+        # (every cold parse of the 1 000-value text costs seconds: short history, one permutation)
+        if huge:
+            # the big operand is combined with one small marker and then with a second one; the same two small
+            # markers are then combined on their own (the probe), in both orders
+            big, small = atoms[0], atoms[1:]
+            ops = [["parse", big]]
+            # pairs in which one marker implies the other (the small operation then simplifies by absorption - the
+            # step whose cached intermediate forms a big operation could leave behind), plus unrelated pairs
+            implied = [('os_name != "a"', 'os_name == "b" and python_version >= "3.9" and python_version < "3.11"'),
+                       ('os_name == "b"', 'os_name == "b" and python_version >= "3.9" and python_version < "3.11"'),
+                       ('os_name == "a" or python_version < "3.9"', 'os_name == "b" and python_version >= "3.9" and python_version < "3.11"'),
+                       ('python_version >= "3.9"', 'python_version >= "3.10" and os_name == "b"'),
+                       ('os_name != "a"', 'os_name == "b"'), ('os_name == "a" or os_name == "b"', 'os_name == "b" and python_version < "3.9"'),
+                       ('python_version >= "3.9" or os_name == "a"', 'python_version >= "3.9"'),
+                       ('os_name != "a" or python_version < "3.8"', 'os_name != "a"')]
+            pairs = rnd.sample(implied, 5) + [tuple(rnd.sample(small, 2))]
+            for x, y in pairs:
+                if rnd.random() < 0.5:
+                    x, y = y, x
+                k = rnd.random()
+                o1, o2 = ("or", "or") if k < 0.55 else (("and", "and") if k < 0.8 else (rnd.choice(["or", "and"]), rnd.choice(["or", "and"])))
+                ops.append([o2, f"({big}) {o1} ({x})", y])
+                ops.append([o2, x, y])
+                ops.append([o2, y, x])
+            ops += _history(rnd, small, rnd.randint(4, 8))
+        else:
+            ops = _history(rnd, atoms, rnd.randint(40, 120))
+        ctx.c10_perms = 1 if huge else None
+        if huge:
+            ctx.shape("alphabet:huge-group")
         ctx.cases += 1
         ctx.current_case = {"kind": "history", "atoms": atoms, "ops": ops}
-        ctx.guarded(120.0 if ctx.tier == "quick" else 400.0, _run_history, ctx, atoms, ops, fresh)
+        ctx.guarded((200.0 if huge else 120.0) if ctx.tier == "quick" else 400.0, _run_history, ctx, atoms, ops,
+                    2 if huge else fresh)
     MM.clear_caches()
     ctx.current_case = None
 
